@@ -88,11 +88,21 @@ Covers(S, D, X, cfg) ==
 Inside(S, D, X, cfg) ==
     LET L == DepthFor(D, X, cfg) IN LeafSet(X, L) \subseteq Lift(S, D, L)
 
-\* MaxCells as documented on RegionCoverer: "MinLevel takes priority over
-\* MaxCells"; "up to 6 cells may be returned if that is the minimum number of
-\* cells required"; "an arbitrary number of cells may be returned if MinLevel is
-\* too high for the region".  The minimum number of cells required is NMin.
-MaxCellsOK(S, D, Xs, cfg) == Len(Xs) <= Max2(cfg.mc, NMin(S, D, cfg.mn))
+\* MaxCells as documented on RegionCoverer, and nothing stronger:
+\*  - "MinLevel takes priority over MaxCells, i.e. cells below the given level will never be
+\*    used even if this causes a large number of cells to be returned";
+\*  - "for any setting of MaxCells, up to 6 cells may be returned if that is the minimum number
+\*    of cells required (e.g. if the region intersects all six face cells)";
+\*  - "for any setting of MaxCells, an arbitrary number of cells may be returned if MinLevel is
+\*    too high for the region being approximated".
+\* NMin is the minimum number of cells required.  MaxCells may be exceeded only if even the
+\* minimum exceeds it; with MinLevel = 0 (faces) the result is then that minimum, with
+\* MinLevel > 0 the documentation promises no bound at all.  (A probe showed the real algorithm
+\* returning 7 cells where MinLevel forces 6 and MaxCells is 4 - permitted by the third rule.)
+MaxCellsOK(S, D, Xs, cfg) ==
+    \/ Len(Xs) <= cfg.mc
+    \/ /\ NMin(S, D, cfg.mn) > cfg.mc
+       /\ (cfg.mn > 0 \/ Len(Xs) <= NMin(S, D, 0))
 
 \* ---- the postconditions -------------------------------------------------------
 CoveringOK(S, D, Xs, cfg) ==
